@@ -1080,6 +1080,7 @@ func c05Lexer(c *Ctx) {
 		sharedWriteObligations(c, "PARSE-STATE", "parse", ps, false)
 		r.Floor("PARSE-STATE", 100)
 		posCacheReinit(c, "PARSE-STATE")
+		c05ArrayIndex(c, ps)
 	}
 	r.Ob("LEX-COVER", "Lexer.emit delivers exactly input[start:pos]", t.Pos(emit.Pos()), okTxt, "consecutive items tile the input")
 }
@@ -1175,4 +1176,139 @@ func verdictReported(cond ssa.Value, pol bool, depth int) bool {
 		}
 	})
 	return okAll && n > 0
+}
+
+// c05ArrayIndex (PANIC-ARRAY): an index into a fixed-size array with a computed index inside the lexer / parser
+// (the goyacc driver excepted) panics when the index reaches the array length; parser.recover turns that into a
+// position-less "unexpected error", and through the exported lexer the panic reaches the caller. Each such site needs
+// 0 ≤ i and i < K ≤ len(array) from dominating facts — directly, or i < len(s) together with len(s) ≤ K established
+// in the function or at every call site of it (a *byte* length: a rune count bounds nothing about bytes).
+func c05ArrayIndex(c *Ctx, scope map[*ssa.Function]bool) {
+	r, t := c.R, c.T
+	callers := callersOf(t)
+	var fns []*ssa.Function
+	for f := range scope {
+		fns = append(fns, f)
+	}
+	sortFuncs(fns)
+	// len(s) ≤ K at instruction `at` for the value s (same SSA value or same access path)
+	lenAtMost := func(at ssa.Instruction, s ssa.Value) int64 {
+		best := int64(-1)
+		for _, ec := range factsAt(at) {
+			bo, ok := ec.Cond.(*ssa.BinOp)
+			if !ok {
+				continue
+			}
+			op, x, y := bo.Op, bo.X, bo.Y
+			if _, isC := x.(*ssa.Const); isC {
+				x, y = y, x
+				op = map[token.Token]token.Token{token.LSS: token.GTR, token.GTR: token.LSS, token.LEQ: token.GEQ, token.GEQ: token.LEQ, token.EQL: token.EQL, token.NEQ: token.NEQ}[op]
+			}
+			lp, isLen := lenOf(x)
+			k, isC := constInt(y)
+			if !isLen || !isC || lp != path(s) {
+				continue
+			}
+			if !ec.Pol {
+				op = negOp(op)
+			}
+			var ub int64 = -1
+			switch op {
+			case token.LEQ:
+				ub = k
+			case token.LSS:
+				ub = k - 1
+			case token.EQL:
+				ub = k
+			}
+			if ub >= 0 && (best < 0 || ub < best) {
+				best = ub
+			}
+		}
+		return best
+	}
+	n := 0
+	for _, f := range fns {
+		if fn := t.Fset.Position(f.Pos()).Filename; strings.HasSuffix(fn, "gram_y.go") || strings.HasSuffix(fn, "yaccpar") || strings.HasPrefix(f.Name(), "yy") || strings.Contains(relName(f), ".yy") {
+			continue // the goyacc driver and its tables: trusted (C06 proves gram_y.go is the regeneration of gram.y)
+		}
+		allInstrs(f, func(in ssa.Instruction) {
+			var base, idx ssa.Value
+			switch x := in.(type) {
+			case *ssa.IndexAddr:
+				base, idx = x.X, x.Index
+			case *ssa.Index:
+				base, idx = x.X, x.Index
+			default:
+				return
+			}
+			alen := arrayLen(base.Type())
+			if alen < 0 {
+				return
+			}
+			if k, ok := constInt(idx); ok {
+				if k >= 0 && k < alen {
+					return
+				}
+			}
+			n++
+			why := ""
+			if isRangeIndex(idx) {
+				why = "range index"
+			}
+			if why == "" && nonNegative(in, idx) {
+				for _, ec := range factsAt(in) {
+					bo, ok := ec.Cond.(*ssa.BinOp)
+					if !ok || !sameValue(bo.X, idx, in) {
+						continue
+					}
+					if !((bo.Op == token.LSS && ec.Pol) || (bo.Op == token.GEQ && !ec.Pol)) {
+						continue
+					}
+					if k, isC := constInt(bo.Y); isC && k <= alen {
+						why = fmt.Sprintf("0 ≤ i < %d", k)
+						break
+					}
+					// i < len(s): need len(s) ≤ alen
+					if call, ok := bo.Y.(*ssa.Call); ok && builtinName(call) == "len" {
+						s := call.Call.Args[0]
+						if arrayLen(s.Type()) >= 0 && arrayLen(s.Type()) <= alen {
+							why = "i < len of an array no longer than this one"
+							break
+						}
+						if ub := lenAtMost(in, s); ub >= 0 && ub <= alen {
+							why = fmt.Sprintf("i < len(%s) ≤ %d here", path(s), ub)
+							break
+						}
+						if p, isParam := s.(*ssa.Parameter); isParam {
+							pi := -1
+							for k, q := range f.Params {
+								if q == p {
+									pi = k
+								}
+							}
+							cs := callers[f]
+							okAll := pi >= 0 && len(cs) > 0
+							for _, cl := range cs {
+								if pi >= len(cl.Call.Args) {
+									okAll = false
+									break
+								}
+								if ub := lenAtMost(cl, cl.Call.Args[pi]); ub < 0 || ub > alen {
+									okAll = false
+								}
+							}
+							if okAll {
+								why = fmt.Sprintf("i < len(%s) and every one of the %d call sites passes a string of at most %d bytes", p.Name(), len(cs), alen)
+								break
+							}
+						}
+					}
+				}
+			}
+			r.Ob("PANIC-ARRAY", fmt.Sprintf("%s %s[%s]", relName(f), path(base), path(idx)), t.Pos(in.Pos()), why != "",
+				fmt.Sprintf("array of %d elements, computed index: %s — needs 0 ≤ i < K ≤ %d, or i < len(s) with len(s) ≤ %d in bytes proved here or at every call site", alen, why, alen, alen))
+		})
+	}
+	r.Extra["PANIC-ARRAY_sites"] = n
 }
